@@ -173,8 +173,52 @@ func judgeC11(rep *core.Report, c *CaseResult) {
 			extents = append(extents, ext{d.StartLine, d.EndLine})
 		}
 	}
+	// ordinary interfaces of the file that a converter interface EMBEDS: their methods are converter methods
+	// as well. Their notation lines act as notations (they must not be counted among the foreign
+	// notation-looking lines that stay), and their prose lines legitimately occur twice in the output (in the
+	// carried-over interface and as the function's doc), so the exactly-once rules below skip them.
+	embeddedMethod := map[*scen.Method]bool{}
+	embeddedBase := map[string]bool{}
+	embeddedDocID := map[string]bool{}
+	for _, it := range s.Ifaces {
+		if it.Converter {
+			continue
+		}
+		for _, m := range it.Methods {
+			for _, cv := range s.Converters() {
+				for _, cm := range cv.Methods {
+					if cm == m {
+						embeddedMethod[m] = true
+						embeddedBase[it.Name] = true
+					}
+				}
+			}
+		}
+	}
+	var baseExtents []ext
+	for _, d := range in.Decls {
+		if d.IsIface && embeddedBase[d.Names[0]] {
+			baseExtents = append(baseExtents, ext{d.StartLine, d.EndLine})
+		}
+	}
+	insideBase := func(line int) bool {
+		for _, e := range baseExtents {
+			if line >= e.lo && line <= e.hi {
+				return true
+			}
+		}
+		return false
+	}
 	for _, it := range s.Converters() {
 		for _, m := range it.Methods {
+			if embeddedMethod[m] {
+				for _, dl := range m.DocLines {
+					if id := regexp.MustCompile(`\bc\d{3}\b`).FindString(dl); id != "" {
+						embeddedDocID[id] = true
+					}
+				}
+				continue
+			}
 			for _, dl := range m.DocLines {
 				if id := regexp.MustCompile(`\bc\d{3}\b`).FindString(dl); id != "" {
 					methodDocIDs[FuncKey(m)] = append(methodDocIDs[FuncKey(m)], id)
@@ -200,6 +244,12 @@ func judgeC11(rep *core.Report, c *CaseResult) {
 	for id, cms := range in.IDs() {
 		cm := cms[0]
 		oc := outIDs[id]
+		if embeddedDocID[id] {
+			if len(oc) == 0 {
+				viol("comment-lost", map[string]string{"where": "embedded-method-doc"}, fmt.Sprintf("doc line %q of an embedded interface's method appears nowhere in the output", cm.Text))
+			}
+			continue
+		}
 		if fk, ok := isMethodDoc[id]; ok {
 			if len(oc) != 1 {
 				viol("method-doc-line-count", map[string]string{"count": fmt.Sprint(len(oc))}, fmt.Sprintf("doc line %q of method %s appears %d times in the output", cm.Text, fk, len(oc)))
@@ -322,7 +372,7 @@ func judgeC11(rep *core.Report, c *CaseResult) {
 	}
 	nNotIn := 0
 	for _, cm := range in.Comments {
-		if reNotationAny.MatchString(cm.Text) && !inside(cm.Line) {
+		if reNotationAny.MatchString(cm.Text) && !inside(cm.Line) && !insideBase(cm.Line) {
 			nNotIn++
 		}
 	}
@@ -383,7 +433,29 @@ func corpusC11() []*scen.Scenario {
 	m := &scen.Method{Name: "Conv", Src: scen.Param{Type: "*A"}, Dst: scen.Param{Type: "*B"}, Notations: []scen.Notation{scen.N("typecast")}, DocLines: []string{"// c003 method doc"}}
 	s.Ifaces = []*scen.Iface{{Name: "Convergen", Converter: true, Methods: []*scen.Method{m}}}
 	s.Feature("layout.vector", "corpus-doc-with-go-generate")
-	return []*scen.Scenario{s}
+	mk := func(id, rel, vec, text string) *scen.Scenario {
+		t := &scen.Scenario{ID: id, PkgRel: rel, PkgName: "sc", InConv: true, Files: map[string]string{}}
+		t.Setup = t.PkgRel + "/setup.go"
+		t.Files[t.Setup] = text
+		t.Files[t.PkgRel+"/types.go"] = "package sc\n"
+		tm := &scen.Method{Name: "Conv", Src: scen.Param{Type: "*A"}, Dst: scen.Param{Type: "*B"}, DocLines: []string{"// c003 method doc"}}
+		t.Ifaces = []*scen.Iface{{Name: "Convergen", Converter: true, Methods: []*scen.Method{tm}}}
+		t.Feature("layout.vector", vec)
+		return t
+	}
+	// repaired in 141f041: the trailing comment of the converter's closing brace was found by comparing line
+	// numbers ADJUSTED by //line directives; a directive further down gives later lines the same numbers, and
+	// the trailing comments of unrelated declarations there were deleted along with it
+	coll := "//go:build convergen\n\npackage sc\n\ntype A struct{ X int }\n\ntype B struct{ X int }\n\n" +
+		"// c002 iface doc\ntype Convergen interface {\n\t// c003 method doc\n\tConv(*A) *B\n} // c004 closing brace\n\n// c005 doc of V\nvar V = 1\n\n//line setup.go:5\n\n"
+	for i := 0; i < 12; i++ {
+		coll += fmt.Sprintf("var W%d = %d // c%03d trailing of W%d\n", i, i, 10+i, i)
+	}
+	// a file rendered from a template: //line directive in front of the package clause (same file name, shifted
+	// numbers), a comment on the closing-brace line, the next declaration's doc comment right below
+	tmpl := "//go:build convergen\n\n//line setup.go:40\n\npackage sc\n\ntype A struct{ X int }\n\ntype B struct{ X int }\n\n" +
+		"// c002 iface doc\ntype Convergen interface {\n\t// c003 method doc\n\tConv(*A) *B\n} // c004 closing brace\n// c005 doc of Describe\nfunc Describe() string { return \"x\" }\n"
+	return []*scen.Scenario{s, mk("kw-c11-line-collision", "kwc11b", "corpus-line-directive-collision", coll), mk("kw-c11-line-template", "kwc11c", "corpus-line-directive-template", tmpl)}
 }
 
 // c11TrimDoc strips the indentation of every line of a comment: gofmt re-indents the lines inside
